@@ -781,6 +781,7 @@ impl Parser {
 
     fn parse_function(&mut self, function: Function) -> Result<Expr, String> {
         let is_boolean_function = function.is_boolean_function();
+        let takes_no_argument = function.takes_no_argument();
         let mut function_expr = Expr::function(function);
 
         let mut curly_mode = false;
@@ -788,6 +789,12 @@ impl Parser {
         if let Some(lexem) = self.next_lexem() {
             if lexem != Lexem::Open && lexem != Lexem::CurlyOpen {
                 if is_boolean_function {
+                    return Ok(function_expr);
+                }
+
+                // `curdate from ...` is `curdate() from ...`: what follows belongs to the query
+                if takes_no_argument {
+                    self.drop_lexem();
                     return Ok(function_expr);
                 }
 
